@@ -135,3 +135,8 @@ def run(ctx):
     ctx.coverage["distinct_nontrivial"] = st["preserved"]
     ctx.coverage["rule"] = "random unambiguous values (strings over all bytes incl. empty, number-like and Lua-source-like ones; canonical integers; booleans; arrays up to 25 elements; maps with non-numeric keys; nesting <= 4) entering by assignment of a Data tree, as event payload, and as <send> parameter (two trips), read back with evalAsData / _event.data; non-trivial = value preserved"
     ctx.assumptions += ["liblua, LuaBridge and libstdc++ number formatting trusted", "floating point values excluded", "donedata / namelist share processParams/processNameLists with the send path"]
+
+
+def replay(ctx, path):
+    import uvlib
+    return uvlib.generic_replay(ctx, path, [(None, "lua", "lua", None)])
